@@ -205,7 +205,8 @@ def execute(plan):
         if dname != "D":
             bump("dir_name_special")
         common.put_store(w, dname, plan["files"])
-        w.put("X/exclude.txt", "\n".join(plan["exclude"]).encode())
+        head = ["", "# L\u00fcfter / \u30d5\u30a1\u30f3\n", "\ufeff"][len(plan["exclude"]) % 3]     # comment / BOM written by some editors
+        w.put("X/exclude.txt", (head + "\n".join(plan["exclude"])).encode("utf-8"))
         for f in plan["files"]:
             datas[f["name"]] = common.file_data(f)
             if f.get("link"):
@@ -256,7 +257,7 @@ def execute(plan):
                 elif k == "src":
                     exp = {f["eid"] for f in model.values() if f["refcode"] is not None and op["arg"] in f["refcode"]}
                 else:
-                    text = "\n".join(plan["exclude"])
+                    text = "\n".join(plan["exclude"])        # (comment / BOM lines hold no reference code)
                     exp = {f["eid"] for f in model.values() if f["refcode"] is not None and f["refcode"] not in text}
                 for f in model.values():
                     if f["eid"] in exp and f["hidden"]:
